@@ -63,6 +63,12 @@ impl Data2 {
         self.load_into(&db);
         db
     }
+    /// `RANDOM()` draws distinct values (one SplitMix64 stream per connection)
+    pub fn load_seeded(&self, seed: u64) -> Db {
+        let db = Db::new(RandomMode::Seeded(seed));
+        self.load_into(&db);
+        db
+    }
     pub fn load_into(&self, db: &Db) {
         db.create_table("t1", &["a", "b", "c", "d", "e"], &self.t1);
         db.create_table("t2", &["a", "f", "g"], &self.t2);
@@ -174,6 +180,14 @@ pub fn gen_sql(rng: &mut Rng) -> (String, bool) {
         // set operations
         7 => { let op = *rng.pick(&["UNION", "UNION ALL", "INTERSECT", "EXCEPT"]);
                (format!("SELECT a AS x, b AS y FROM t1{} {op} SELECT a AS x, a - 2 AS y FROM t2", if rng.chance(1, 2) { " WHERE b > 0" } else { "" }), false) }
+        // row-wise generators: random() is unique per row, a non-injective function of it is not
+        8 if rng.chance(1, 6) => (rng.pick(&["SELECT random() AS r, a AS c1 FROM t1", "SELECT random() > 0.5 AS coin, a AS c1 FROM t1", "SELECT CASE WHEN random() > 0.5 THEN 1 ELSE 0 END AS coin, a AS c1 FROM t2",
+                                       "SELECT - random() AS r, b AS c1 FROM t1", "SELECT random() + a AS r, a AS c1 FROM t1", "SELECT abs(random() - 0.5) > 0.25 AS far, k AS c1 FROM t3"]).to_string(), false),
+        // the same multi-stage sub-query on both sides of a join (several shared CTEs)
+        8 if rng.chance(1, 5) => { let lim = rng.range(-2, 2);
+            (rng.pick(&[format!("WITH t AS (SELECT d AS d, sum(2 * a) AS s, count(*) AS n FROM t1 WHERE b > {lim} GROUP BY d) SELECT x.d AS d, x.s AS s, y.n AS n FROM t AS x JOIN t AS y ON x.d = y.d"),
+                        format!("WITH t AS (SELECT b AS b, max(c) AS m FROM t1 WHERE b > {lim} GROUP BY b) SELECT x.b AS b, x.m AS m FROM t AS x JOIN t AS y ON x.b = y.b WHERE y.m > 1"),
+                        format!("WITH t AS (SELECT DISTINCT a AS a, b AS b FROM t1 WHERE b > {lim}) SELECT x.a AS a, y.b AS b FROM t AS x JOIN t AS y ON x.a = y.a")]).to_string(), false) }
         // diamonds: one sub-query used on both sides of a join / set operation, with further nodes on each side
         8 if rng.chance(1, 2) => {
             let base = format!("SELECT a AS a, b AS b, c AS c FROM t1{}", if rng.chance(1, 2) { " WHERE b > -2" } else { "" });
@@ -260,7 +274,9 @@ pub fn eval(case: &J) -> Outcome {
     if orders_by_missing_column(&rel) { cls = "order-by-missing-column".to_string(); out.tag("order-by-missing-column"); }
     let mut rng = Rng::new(case["data_seed"].as_u64().unwrap());
     let data = gen_data2(&mut rng);
-    let db = data.load();
+    let uses_random = sql.contains("random()");
+    if uses_random { out.tag("uses-random"); }
+    let db = if uses_random { data.load_seeded(case["data_seed"].as_u64().unwrap()) } else { data.load() };
     let rendered = match db.run(&rel) { Ok(x) => x, Err(e) => { out.tag("trivial"); out.fail(&format!("C17/sqlite/rendered-not-executable/{cls}"), format!("{sql}: {e}")); return out; } };
     if rendered.1.is_empty() { out.tag("empty-result"); }
     // ---- C07: cells in declared types, row count in declared size
@@ -295,7 +311,8 @@ pub fn eval(case: &J) -> Outcome {
             if vals.len() != before { out.fail(&format!("C14/sqlx/duplicate-in-unique-column/{cls}"), format!("{sql}: column `{}` is declared unique but execution produced duplicates: {:?}", f.name(), rendered.1.iter().map(|r| r[ci].to_string()).collect::<Vec<_>>())); }
         }
     }
-    // ---- C08: original text vs rendered relation
+    // ---- C08: original text vs rendered relation (not for queries that draw random numbers: two executions differ by construction)
+    if uses_random { return out; }
     match db.query(sql) {
         Err(_) => { out.tag("original-not-sqlite"); }
         Ok(orig) => {
